@@ -59,7 +59,7 @@ type Run struct {
 	Req chan ParkReq
 
 	mu     sync.Mutex // sim-internal; never held across a park
-	byGoid map[uint64]*G
+	byGoid goTable
 	all    []*G
 	timers map[string]int
 	anon   int
@@ -90,10 +90,16 @@ var cur atomic.Pointer[Run]
 func Current() *Run { return cur.Load() }
 
 // Begin installs a new run. Must be called from inside the bubble by the scheduler goroutine.
+// Quiet makes the calling goroutine (the scheduler) invisible to the race detector as a source of
+// synchronisation for the rest of its life: nothing it sends or receives orders the system's goroutines.
+func Quiet() { raceDisable() }
+
+// Unquiet undoes Quiet.
+func Unquiet() { raceEnable() }
+
 func Begin() *Run {
 	r := &Run{
 		Req:      make(chan ParkReq, 4096),
-		byGoid:   map[uint64]*G{},
 		timers:   map[string]int{},
 		SiteHits: map[string]int{},
 	}
@@ -108,6 +114,7 @@ func (r *Run) End() {
 	cur.CompareAndSwap(r, nil)
 }
 
+//go:norace
 func goid() uint64 {
 	var buf [40]byte
 	b := buf[:runtime.Stack(buf[:], false)]
@@ -120,16 +127,27 @@ func goid() uint64 {
 	return n
 }
 
+// selfQ is self() with the runtime's race detector told to ignore simrt's own locking: the simulator must
+// not add happens-before edges of its own between goroutines of the system under test.
+//go:norace
+func (r *Run) selfQ() *G {
+	raceDisable()
+	g := r.self()
+	raceEnable()
+	return g
+}
+
+//go:norace
 func (r *Run) self() *G {
 	id := goid()
 	r.mu.Lock()
-	g := r.byGoid[id]
+	g := r.byGoid.get(id)
 	if g == nil {
 		// A goroutine the instrumenter could not name (go statement with arguments, goroutines
 		// started by libraries). Deterministic only if such goroutines first park one at a time.
 		r.anon++
 		g = &G{Name: "anon#" + strconv.Itoa(r.anon), wake: make(chan struct{}, 1), spawn: map[string]int{}}
-		r.byGoid[id] = g
+		r.byGoid.put(id, g)
 		r.all = append(r.all, g)
 	}
 	r.mu.Unlock()
@@ -143,13 +161,14 @@ func (r *Run) Goroutines() []*G {
 	return append([]*G(nil), r.all...)
 }
 
+//go:norace
 func (r *Run) park(kind Kind, site string, obj any) {
 	if r.dead.Load() {
 		select {}
 	}
+	raceDisable()
 	g := r.self()
 	g.At = site
-	raceDisable()
 	r.Req <- ParkReq{G: g, Site: site, Kind: kind, Obj: obj}
 	<-g.wake
 	raceEnable()
@@ -159,6 +178,7 @@ func (r *Run) park(kind Kind, site string, obj any) {
 }
 
 // Release lets a parked goroutine continue. Scheduler only.
+//go:norace
 func (r *Run) Release(p ParkReq) {
 	raceDisable()
 	p.G.wake <- struct{}{}
@@ -187,7 +207,7 @@ func Yield(site string) {
 	if r == nil {
 		return
 	}
-	r.self().At = site
+	r.selfQ().At = site
 	if r.Mask[KYield] {
 		return
 	}
@@ -207,22 +227,26 @@ func NetYield(site string) { optional(KNet, site, nil) }
 func NetWoke(site string) { mandatory(KWoke, site, nil) }
 
 // Spawn draws the logical id of a goroutine about to be started at site by the caller.
+//go:norace
 func Spawn(site string) string {
 	r := cur.Load()
 	if r == nil {
 		return ""
 	}
+	raceDisable()
 	g := r.self()
 	r.mu.Lock()
 	g.spawn[site]++
 	n := g.spawn[site]
 	r.mu.Unlock()
+	raceEnable()
 	return g.Name + "/" + site + "#" + strconv.Itoa(n)
 }
 
 // GoStart registers the calling goroutine under the id its parent drew and parks at once.
 func GoStart(id string) { goStart(id, true) }
 
+//go:norace
 func goStart(id string, sys bool) {
 	r := cur.Load()
 	if r == nil || id == "" {
@@ -231,37 +255,46 @@ func goStart(id string, sys bool) {
 	if r.dead.Load() {
 		select {}
 	}
+	raceDisable()
 	gid := goid()
 	g := &G{Name: id, wake: make(chan struct{}, 1), spawn: map[string]int{}, Sys: sys}
 	r.mu.Lock()
-	r.byGoid[gid] = g
+	r.byGoid.put(gid, g)
 	r.all = append(r.all, g)
 	r.mu.Unlock()
+	raceEnable()
 	r.park(KStart, id, nil)
 }
 
 // GoExit marks the calling goroutine as finished.
+//go:norace
 func GoExit() {
 	r := cur.Load()
 	if r == nil {
 		return
 	}
+	raceDisable()
 	gid := goid()
 	r.mu.Lock()
-	if g := r.byGoid[gid]; g != nil {
+	if g := r.byGoid.get(gid); g != nil {
 		g.Exited = true
-		delete(r.byGoid, gid)
+		r.byGoid.del(gid)
 	}
 	r.mu.Unlock()
+	raceEnable()
 }
 
 // Go starts a harness goroutine under the scheduler's control. name must be unique in the run.
+// The caller is the scheduler, which is Quiet: the go statement itself is made visible again so that the new
+// goroutine inherits what the scheduler has built for it (the fork edge).
 func Go(name string, f func()) {
+	raceEnable()
 	go func() {
 		goStart(name, false)
 		defer GoExit()
 		f()
 	}()
+	raceDisable()
 }
 
 // RegisterSelf names the calling goroutine (the scheduler itself) without parking.
@@ -269,7 +302,7 @@ func (r *Run) RegisterSelf(name string) {
 	gid := goid()
 	r.mu.Lock()
 	g := &G{Name: name, wake: make(chan struct{}, 1), spawn: map[string]int{}}
-	r.byGoid[gid] = g
+	r.byGoid.put(gid, g)
 	r.mu.Unlock()
 }
 
@@ -279,10 +312,12 @@ func TimerFunc(f func(), site string) func() {
 	if r == nil {
 		return f
 	}
+	raceDisable()
 	r.mu.Lock()
 	r.timers[site]++
 	base := "timer:" + site + "#" + strconv.Itoa(r.timers[site])
 	r.mu.Unlock()
+	raceEnable()
 	var fires int32
 	return func() {
 		n := atomic.AddInt32(&fires, 1)
@@ -314,7 +349,7 @@ func Send[T any](ch chan<- T, v T, site string) {
 		return
 	default:
 	}
-	r.self().At = site
+	r.selfQ().At = site
 	ch <- v
 	r.park(KWoke, site, nil)
 }
@@ -340,7 +375,7 @@ func Recv2[T any](ch <-chan T, site string) (T, bool) {
 		return v, ok
 	default:
 	}
-	r.self().At = site
+	r.selfQ().At = site
 	v, ok := <-ch
 	r.park(KWoke, site, nil)
 	return v, ok
@@ -452,9 +487,11 @@ func Recovered(v any, site string) any {
 		return v
 	}
 	name := "?"
+	raceDisable()
+	defer raceEnable()
 	gid := goid()
 	r.mu.Lock()
-	if g := r.byGoid[gid]; g != nil {
+	if g := r.byGoid.get(gid); g != nil {
 		name = g.Name
 	}
 	var s string
@@ -485,10 +522,12 @@ func SelfName() string {
 	if r == nil {
 		return ""
 	}
+	raceDisable()
+	defer raceEnable()
 	gid := goid()
 	r.mu.Lock()
 	defer r.mu.Unlock()
-	if g := r.byGoid[gid]; g != nil {
+	if g := r.byGoid.get(gid); g != nil {
 		return g.Name
 	}
 	return ""
@@ -497,7 +536,7 @@ func SelfName() string {
 // At records where the calling goroutine is about to block (harness transport).
 func At(site string) {
 	if r := cur.Load(); r != nil {
-		r.self().At = site
+		r.selfQ().At = site
 	}
 }
 
@@ -526,23 +565,30 @@ func OnceDo(o *sync.Once, f func(), site string) {
 		r.park(KPreLock, site, nil)
 	}
 	for {
+		raceDisable()
 		r.mu.Lock()
 		if st.done {
 			r.mu.Unlock()
+			raceEnable()
+			o.Do(func() {}) // already done: this only takes the happens-before edge a real Once gives
 			return
 		}
 		if !st.running {
 			st.running = true
 			r.mu.Unlock()
+			raceEnable()
 			break
 		}
 		r.mu.Unlock()
+		raceEnable()
 		r.park(KLock, site, onceWait{r, st})
 	}
 	defer func() {
+		raceDisable()
 		r.mu.Lock()
 		st.done, st.running = true, false
 		r.mu.Unlock()
+		raceEnable()
 	}()
 	o.Do(f)
 }
